@@ -98,7 +98,7 @@ def run_script(L, T, ty, name, steps, via='ctor'):
     if via == 'new':
         r = p_new(I, T, mk_type(I, T, ty), name)
         return ('err', err_name(r.fields[0])) if r.variant == 'Err' else ('ok', r.fields[0])
-    b = b_new(I, T, mk_type(I, T, ty), name, via)
+    b = b_parsed(I, T, ty) if via == 'parsed' else b_new(I, T, mk_type(I, T, ty), name, via)
     for m, *args in steps:
         a2 = [mk_type(I, T, args[0])] if m == 'with_package_type' else args
         b = b_call(I, T, b, m, *a2)
@@ -128,6 +128,9 @@ def h_seq(L, T, ty, name, steps, via='ctor'):
     req = {'op': 'build_typed' if T == 'Purl' else 'build', 'T': KINDS[T][1], 'type': SymStr(tyb), 'name': SymStr(nm), 'via': via, 'steps': [[m] + [SymStr(a) for a in args] for m, *args in st]}
     L.expect_native(req, {})
     R = RefB(tyb, nm)
+    if via == 'parsed':          # the builder starts from what `pkg:<type>/ns/n@1?a=1&c=3#s` holds
+        for m, *args in PARSED_STEPS:
+            R.apply(L, m, [list(a.encode()) for a in args])
     for m, *args in st:
         R.apply(L, m, args)
     try:
@@ -259,7 +262,9 @@ def queries(tier):
 
     def addseq(T, ty, name, steps, via='ctor'):
         txt = show_steps(ty, name, steps)
-        if via != 'ctor':
+        if via == 'parsed':
+            txt = "parse('pkg:%s/ns/n@1?a=1&c=3#s').into_builder()" % ty + txt[txt.index(')') + 1:]
+        elif via != 'ctor':
             txt = txt.replace('new(', 'GenericPurl::%s(' % via, 1)
         qs.append(Query('%s %s' % (T, txt), h_seq, {'T': T, 'ty': ty, 'name': name, 'steps': steps, 'via': via},
                         bound='builder script %s with every valid-UTF-8 string of the stated size in each hole' % txt))
@@ -289,6 +294,12 @@ def queries(tier):
         addseq(T, ty, 'n', [('with_namespace', 'g'), ('with_qualifier', H(1, 'a'), H(1, 'v')), ('with_qualifier', H(1, 'b'), H(1, 'w'))])
         addseq(T, ty, 'n', [('with_namespace', 'g'), ('with_qualifier', H(1, 'a'), 'v'), ('without_qualifier', H(1, 'b'))])
         addseq(T, ty, 'n', [('with_namespace', 'g'), ('with_qualifier', H(2, 'a'), 'v'), ('without_qualifiers',)])
+        # edit-and-rebuild: a parsed PURL turned back into a builder, one field / qualifier changed
+        for meth in SET:
+            addseq(T, ty, 'n', [(meth, H(2 if deep else 1))], via='parsed')
+        addseq(T, ty, 'n', [('with_qualifier', H(1, 'a'), H(1, 'v'))], via='parsed')
+        addseq(T, ty, 'n', [('without_qualifier', H(1, 'a'))], via='parsed')
+        addseq(T, ty, 'n', [('without_namespace',), ('without_version',), ('without_subpath',), ('with_qualifier', 'b', H(1, 'v'))] if ty != 'maven' else [('without_version',), ('without_subpath',)], via='parsed')
         if deep:
             # many qualifiers, then unsetting / overriding one by a free key
             MANY = [('with_namespace', 'g')] + [('with_qualifier', k, v) for k, v in (('c', '1'), ('a', '2'), ('e', '3'), ('b', '4'), ('d', '5'))]
